@@ -41,6 +41,8 @@ CONFIGS = {
                       profile={"opt-level": 2, "debug-assertions": "true", "overflow-checks": "true"}),
     "dbg_sse2": dict(tlsh=["std", "easy-functions", "opt-default", "simd"], sim=[], profile={"opt-level": 2, "debug-assertions": "true", "overflow-checks": "true"}),
     "rel_unsafe_lowmem": dict(tlsh=BASE_FEATURES + ["unsafe", "opt-low-memory-buckets"], sim=[]),
+    # the plain `cargo build` / `cargo test` profile of the library (opt-level 0): what most callers run their own tests with
+    "dev0": dict(tlsh=BASE_FEATURES, sim=[], profile={"opt-level": 0, "debug-assertions": "true", "overflow-checks": "true"}),
     "asan_unsafe": dict(tlsh=BASE_FEATURES + ["unsafe"], sim=[], toolchain="nightly", rustflags="-Zsanitizer=address",
                         target="x86_64-unknown-linux-gnu", profile={"opt-level": 2, "debug-assertions": "true"}),
     "asan": dict(tlsh=BASE_FEATURES, sim=[], toolchain="nightly", rustflags="-Zsanitizer=address",
@@ -213,7 +215,7 @@ def build(ctx, key):
     if cfg.get("target"):
         cmd += ["--target", cfg["target"]]
     t = time.time()
-    p = subprocess.run(cmd, env=env, stdout=subprocess.PIPE, stderr=subprocess.STDOUT, text=True)
+    p = subprocess.run(cmd, env=env, stdout=subprocess.PIPE, stderr=subprocess.STDOUT, text=True, errors="replace")
     if p.returncode != 0:
         sys.stderr.write(p.stdout[-6000:])
         raise HarnessError("build of configuration %s failed" % key)
@@ -237,7 +239,7 @@ def miri_run(ctx, key, sim_args, many_seeds=None, timeout=3600):
     cmd = ["cargo", "+nightly", "miri", "run", "--offline", "--quiet", "--manifest-path", mpath, "--"] + [str(a) for a in sim_args]
     t = time.time()
     try:
-        p = subprocess.run(cmd, env=env, stdout=subprocess.PIPE, stderr=subprocess.PIPE, text=True, timeout=timeout)
+        p = subprocess.run(cmd, env=env, stdout=subprocess.PIPE, stderr=subprocess.PIPE, text=True, errors="replace", timeout=timeout)
     except subprocess.TimeoutExpired:
         raise HarnessError("Miri run of %s timed out" % key)
     ctx.log("miri %s %s: exit %d in %.1fs" % (key, " ".join(map(str, sim_args[:2])), p.returncode, time.time() - t))
@@ -264,7 +266,7 @@ def run_sim(ctx, binary, args, timeout=7200, env=None, allow_abort=False):
     is a harness error (exit 2), never a verdict -- e.g. a tree whose dispatch blocks on a std primitive the
     shuttle scheduler cannot see."""
     try:
-        p = subprocess.run([binary] + [str(a) for a in args], stdout=subprocess.PIPE, stderr=subprocess.PIPE, text=True,
+        p = subprocess.run([binary] + [str(a) for a in args], stdout=subprocess.PIPE, stderr=subprocess.PIPE, text=True, errors="replace",
                            timeout=timeout, env=env)
     except subprocess.TimeoutExpired:
         raise HarnessError("simulator did not finish within %ds: %s %s" % (timeout, binary, " ".join(map(str, args))))
@@ -442,10 +444,16 @@ def range_reproduces(ctx, binary, doc):
     return any(v.get("index") == doc.get("index") and v.get("class") == doc["violation"]["class"] for v in (rep or {}).get("violations", []))
 
 
-def sim_batch(ctx, vd, config, binary, scenario, count, threads=NCPU, start=0, extra=()):
+def sim_batch(ctx, vd, config, binary, scenario, count, threads=NCPU, start=0, extra=(), abort_fallback=False):
     t = time.time()
     code, rep, err = run_sim(ctx, binary, ["batch", scenario, "--seed", vd.seed, "--start", start, "--count", count,
-                                           "--threads", threads] + list(extra))
+                                           "--threads", threads] + list(extra), allow_abort=abort_fallback)
+    if code not in (0, 1):
+        # the simulator process died (undefined behaviour reaching the harness, an abort, a signal): that is a finding about the
+        # code under test, not a harness error -- re-run the range as single-threaded processes that record their progress,
+        # which turns the death into a localised, replayable violation
+        ctx.log("%s/%s: the multi-threaded batch died (exit %s); re-running as single-threaded processes to localise" % (config, scenario, code))
+        return sim_batch_procs(ctx, vd, config, binary, scenario, count, extra=extra, abort_engine="native-abort")
     ctx.log("%s/%s: %d runs in %.1fs, %d violations" % (config, scenario, count, time.time() - t, rep.get("violation_count", 0)))
     vd.add(config, rep)
     return rep
@@ -473,7 +481,7 @@ def sim_batch_procs(ctx, vd, config, binary, scenario, count, procs=NCPU, extra=
         if code not in (0, 1):
             idx = int(open(pf).read() or lo) if os.path.exists(pf) else lo
             hist = subprocess.run([binary, "history", scenario, "--seed", str(vd.seed), "--index", str(idx)] + [a for a in extra if a == "--small"],
-                                  stdout=subprocess.PIPE, text=True, env=env).stdout.strip()
+                                  stdout=subprocess.PIPE, text=True, errors="replace", env=env).stdout.strip()
             msg = [l for l in err.splitlines() if l.strip()]
             key = next((l for l in msg if "ERROR: AddressSanitizer" in l or "unsafe precondition" in l or "panicked" in l or "SIG" in l), msg[-1] if msg else "")
             key = {-11: "SIGSEGV ", -6: "SIGABRT ", -4: "SIGILL ", -7: "SIGBUS "}.get(code, "") + key
@@ -509,14 +517,14 @@ def strace_eintr(ctx, vd, binary, scratch):
     import random
     rnd = random.Random(vd.seed)
     open(path, "wb").write(bytes(rnd.getrandbits(8) for _ in range(3 * (1 << 20) + 11)))
-    base = subprocess.run([binary, "hashfile-one", "--path", path], stdout=subprocess.PIPE, text=True).stdout.strip()
+    base = subprocess.run([binary, "hashfile-one", "--path", path], stdout=subprocess.PIPE, text=True, errors="replace").stdout.strip()
     fired = 0
     checks = 0
     nviol = 0
     for n in range(1, 7):
         log = os.path.join(scratch, "strace.log")
         p = subprocess.run(["strace", "-o", log, "-P", path, "-e", "trace=read", "-e", "inject=read:error=EINTR:when=%d" % n,
-                            binary, "hashfile-one", "--path", path], stdout=subprocess.PIPE, stderr=subprocess.PIPE, text=True)
+                            binary, "hashfile-one", "--path", path], stdout=subprocess.PIPE, stderr=subprocess.PIPE, text=True, errors="replace")
         inj = open(log).read().count("(INJECTED)") if os.path.exists(log) else 0
         if p.returncode != 0 and inj == 0 and "ptrace" in p.stderr.lower():
             vd.extra["strace"] = "ptrace not permitted here: real-syscall fault injection skipped"
@@ -580,11 +588,12 @@ def check_C12(ctx, tier, seed):
     big_jobs.append(side.submit(lambda: run_sim(ctx, b, ["hashfile-unpriv", "--path", "/etc/passwd"])[1]))
     if tier != "quick":
         big_jobs.append(side.submit(lambda: run_sim(ctx, b, ["hashfile-big", "--dir", scratch, "--variant", (seed + 2) % 5, "--total", 4224281216])[1]))
-    sim_batch_procs(ctx, vd, "default", b, "c12", n)
+    # a process that dies (stack exhaustion on the small-stack threads, an abort) is a violation, not a harness error
+    sim_batch_procs(ctx, vd, "default", b, "c12", n, abort_engine="native-abort")
     extra_bins = build_many(ctx, ["lowmem", "rel_unsafe"])
     lb = extra_bins["lowmem"]
-    sim_batch_procs(ctx, vd, "lowmem", lb, "c12", n // 4)
-    sim_batch_procs(ctx, vd, "rel_unsafe", extra_bins["rel_unsafe"], "c12", n // 4)
+    sim_batch_procs(ctx, vd, "lowmem", lb, "c12", n // 4, abort_engine="native-abort")
+    sim_batch_procs(ctx, vd, "rel_unsafe", extra_bins["rel_unsafe"], "c12", n // 4, abort_engine="native-abort")
     for i in range(1 if tier == "quick" else 16):
         code, rep, err = run_sim(ctx, b, ["hashfile", "--dir", scratch, "--seed", seed + i])
         vd.add("default", rep)
@@ -625,12 +634,12 @@ def check_C03(ctx, tier, seed):
         jobs.append(side.submit(lambda: run_sim(ctx, b, ["c03big", "--variant", (seed + 1) % 5, "--pattern", "a40e", "--seed", seed + 1, "--total", (1 << 31) + (1 << 29) + 77])[1]))
     # single-threaded worker processes: whatever process-wide state a tree keeps (dispatch cells, caches) then sees many
     # different first-use orders (one per process), and each process is a deterministic function of its index range
-    sim_batch_procs(ctx, vd, "default", b, "c03", n)
+    sim_batch_procs(ctx, vd, "default", b, "c03", n, abort_engine="native-abort")
     # the reduced-memory feature set (low-memory buckets, single tables, minimal hex tables): same histories, fewer of them
     extra = ["lowmem", "rel_unsafe", "m_static_sse2", "m_static_sse41", "m_static_avx2"]
     extra_bins = build_many(ctx, extra)
     for k in extra:
-        sim_batch_procs(ctx, vd, k, extra_bins[k], "c03", n // (4 if k in ("lowmem", "rel_unsafe") else 8))
+        sim_batch_procs(ctx, vd, k, extra_bins[k], "c03", n // (4 if k in ("lowmem", "rel_unsafe") else 8), abort_engine="native-abort")
     # chunking independence around the 4 GiB marks (states injected through hook H3, judged by the reference model)
     hb = try_build(ctx, "hooked")
     if hb:
@@ -682,7 +691,7 @@ MATRIX_QUICK = ["m_plain", "m_default", "m_unsafe", "m_embedded", "m_static_sse4
 
 
 def transcript_of(ctx, binary, seed, count):
-    p = subprocess.run([binary, "transcript", "--seed", str(seed), "--count", str(count)], stdout=subprocess.PIPE, stderr=subprocess.PIPE, text=True)
+    p = subprocess.run([binary, "transcript", "--seed", str(seed), "--count", str(count)], stdout=subprocess.PIPE, stderr=subprocess.PIPE, text=True, errors="replace")
     if p.returncode != 0:
         sys.stderr.write(p.stderr[-3000:])
         raise HarnessError("transcript probe failed: %s" % binary)
@@ -721,7 +730,7 @@ def matrix_compare(ctx, vd, keys, count):
                 for k in g:
                     blamed.setdefault(k, (i, l, lines_i[major[0]], major))
         for k, (i, got, want, major) in sorted(blamed.items()):
-            opj = subprocess.run([bins[k], "transcript-op", "--seed", str(vd.seed), "--index", str(i)], stdout=subprocess.PIPE, text=True).stdout.strip()
+            opj = subprocess.run([bins[k], "transcript-op", "--seed", str(vd.seed), "--index", str(i)], stdout=subprocess.PIPE, text=True, errors="replace").stdout.strip()
             nviol += 1
             other = major[0]
             vd.add_violation(k, "c07matrix", {"class": "build-differs:%s" % k, "index": i, "engine": "matrix",
@@ -759,11 +768,14 @@ def shuttle_runs(ctx, vd, binary, iters, procs):
     ctx.log("shuttle: %d x %d schedules in %.1fs, %d violations" % (procs, iters, time.time() - t, sum(r.get("violation_count", 0) for r in reps)))
 
 
-def miri_race(ctx, vd, key, workload_seeds, many_seeds):
-    """C07 (c): first-call race of real threads on the unhooked crate under Miri's seeded scheduler."""
+def miri_race(ctx, vd, key, workload_seeds, many_seeds, fresh=False):
+    """C07 (c): first-call race of real threads on the unhooked crate under Miri's seeded scheduler.
+    fresh: the main thread never touches the library before the threads start, and every thread begins with its own
+    generator work (so that lazily built state is first touched by racing threads)."""
     total = 0
     for ws in workload_seeds:
-        code, out, err = miri_run(ctx, key, ["race", "--seed", ws, "--threads", 3, "--ops", 3], many_seeds=many_seeds)
+        argv = ["race", "--seed", ws, "--threads", 3, "--ops", 3] + (["--fresh"] if fresh else [])
+        code, out, err = miri_run(ctx, key, argv, many_seeds=many_seeds)
         oks = out.count("RACE-OK")
         total += oks
         if "unsupported operation" in err:
@@ -773,8 +785,8 @@ def miri_race(ctx, vd, key, workload_seeds, many_seeds):
             detail = next((l for l in out.splitlines() if "RACE-VIOLATION" in l), "") or next((l for l in err.splitlines() if "error:" in l), "exit %d" % code)
             cls = "first-caller-dependence" if "RACE-VIOLATION" in out else "miri-ub-in-first-call-race"
             vd.add_violation(key, "c07race", {"class": cls, "index": ws, "engine": "miri", "detail": detail[:600],
-                                              "history": {"argv": ["race", "--seed", str(ws), "--threads", "3", "--ops", "3"], "many_seeds": many_seeds, "config": key},
-                                              "argv": ["race", "--seed", str(ws), "--threads", "3", "--ops", "3"]})
+                                              "history": {"argv": [str(a) for a in argv], "many_seeds": many_seeds, "config": key},
+                                              "argv": [str(a) for a in argv]})
     vd.reports.append((key, {"scenario": "c07race", "evaluations": total, "distinct": total, "distinct_nontrivial": total,
                              "rule": "Miri: one evaluation = one (workload seed, Miri scheduler seed) execution of 3 real threads racing the process's first calls; each is distinct by construction of the seed pair",
                              "counters": {"probe.miri_race_executions": total, "fault.miri_scheduler_seeds": total}, "samples": [{"config": key, "workload_seeds": list(workload_seeds), "miri_many_seeds": many_seeds}],
@@ -870,7 +882,7 @@ def nostd_builds(ctx, vd, sets):
             cmd = ["cargo", "build", "--lib", "--offline", "--quiet", "--no-default-features", "--manifest-path", os.path.join(ctx.repo, "fast-tlsh", "Cargo.toml")]
             if feats:
                 cmd += ["--features", ",".join(feats)]
-            p = subprocess.run(cmd, env=cargo_env({"CARGO_TARGET_DIR": target}), stdout=subprocess.PIPE, stderr=subprocess.STDOUT, text=True)
+            p = subprocess.run(cmd, env=cargo_env({"CARGO_TARGET_DIR": target}), stdout=subprocess.PIPE, stderr=subprocess.STDOUT, text=True, errors="replace")
             res.append((feats, cmd, p.returncode, p.stdout))
         return res
     with ThreadPoolExecutor(max_workers=lanes) as ex:
@@ -979,7 +991,7 @@ def miri_batches(ctx, vd, key, scenario, count, procs, extra=()):
         errline = next((l for l in err.splitlines() if l.startswith("error:")), "exit %d" % code)
         where = next((l.strip() for l in err.splitlines() if "-->" in l and "fast-tlsh" in l), "")
         rargs = ["batch", scenario, "--seed", str(vd.seed), "--start", str(idx), "--count", "1", "--threads", "1", "--small", "--trace-runs"] + list(extra)
-        hist = subprocess.run([build(ctx, "default"), "history", scenario, "--seed", str(vd.seed), "--index", str(idx), "--small"], stdout=subprocess.PIPE, text=True).stdout.strip()
+        hist = subprocess.run([build(ctx, "default"), "history", scenario, "--seed", str(vd.seed), "--index", str(idx), "--small"], stdout=subprocess.PIPE, text=True, errors="replace").stdout.strip()
         return {"scenario": scenario, "seed": str(vd.seed), "evaluations": max(0, idx - i * per), "violation_count": 1,
                 "violations": [{"index": idx, "class": "miri:" + re.sub(r"\d+", "", errline)[:90], "engine": "miri", "argv": rargs,
                                 "detail": "%s %s (configuration %s, run %d)" % (errline, where, key, idx),
@@ -1023,11 +1035,13 @@ def check_C17(ctx, tier, seed):
         rand_twins.append(k)
     tbins.update(build_many(ctx, rand_twins))
     vd.extra["random_debug_builds"] = {k: {"features": CONFIGS[k]["tlsh"], "rustflags": CONFIGS[k]["rustflags"], "profile": CONFIGS[k]["profile"]} for k in rand_twins}
+    tbins["dev0"] = build(ctx, "dev0")
     def twin(cfg):
+        slow = 4 if cfg == "dev0" or CONFIGS[cfg].get("profile", {}).get("opt-level") == 0 else 1
         for sc, n in (("c17api", 16_000), ("c03", 8_000), ("c12", 4_000)):
-            sim_batch_procs(ctx, vd, cfg, tbins[cfg], sc, n * mult, abort_engine="native-abort", procs=4)
+            sim_batch_procs(ctx, vd, cfg, tbins[cfg], sc, n * mult // slow, abort_engine="native-abort", procs=4)
     with ThreadPoolExecutor(max_workers=4) as ex:
-        list(ex.map(twin, twins + rand_twins))
+        list(ex.map(twin, twins + ["dev0"] + rand_twins))
     for k in rand_twins:
         shutil.rmtree(os.path.join(ctx.build_root, k), ignore_errors=True)
     # the file helpers on real files, incl. calls from threads with a 128 KiB stack (stack exhaustion is a crash, too)
@@ -1079,7 +1093,7 @@ def check_C17(ctx, tier, seed):
     with ThreadPoolExecutor(max_workers=(len(pairs) + 1) if quick else 4) as ex:
         # first calls of two or three threads racing on the build with feature `unsafe` (data races on lazily built state
         # are invisible natively: only the interpreter's race detector sees them)
-        race = ex.submit(lambda: miri_race(ctx, vd, "miri_unsafe_sse2", [seed] if quick else [seed + i for i in range(4)], 16 if quick else 64))
+        race = ex.submit(lambda: miri_race(ctx, vd, "miri_unsafe_sse2", [seed] if quick else [seed + i for i in range(4)], 16 if quick else 64, fresh=True))
         list(ex.map(lambda cs: miri_batches(ctx, vd, cs[0], cs[1], per * procs, procs), pairs))
         race.result()
     if not quick:
@@ -1138,7 +1152,7 @@ def check_C11(ctx, tier, seed):
     # ... and one single slice of exactly 4,224,281,216 bytes (> 1 GiB, > 2^31, not a multiple of any power-of-two block):
     # every byte of it must be counted, the result must be the reference hash with length code 169
     # ... and one generated stream of MAX + 1 bytes through the stream helper (the limit must also hold when the bytes arrive through hash_stream*)
-    side_job3 = side.submit(lambda: run_sim(ctx, bins["hooked"], ["bigreader", "--variant", (seed + 1) % 5, "--pattern", "5a", "--seed", seed, "--total", 4224281217])[1])
+    side_job3 = side.submit(lambda: run_sim(ctx, bins["hooked"], ["bigreader", "--variant", (seed + 1) % 5, "--pattern", "5a", "--seed", seed, "--total", (1 << 32) + 5 + seed % 7])[1])
     side_job2 = side.submit(lambda: run_sim(ctx, bins["hooked"], ["bigstream", "--variant", (seed + 3) % 5, "--pattern", "00", "--seed", 1,
                                                                  "--single-slice", 4224281216])[1])
     # single-threaded processes: every history also draws a simulated CPU, so each backend's quartile / body code meets
@@ -1193,14 +1207,14 @@ def check_C16(ctx, tier, seed):
     n = 400_000 if tier == "quick" else 10_000_000
     per = max(2, NCPU // len(SERDE_CONFIGS))
     def one(cfg):
-        sim_batch(ctx, vd, cfg, bins[cfg], "c16", n, threads=per)
-        sim_batch(ctx, vd, cfg, bins[cfg], "c16mock", n, threads=per)
+        sim_batch(ctx, vd, cfg, bins[cfg], "c16", n, threads=per, abort_fallback=True)
+        sim_batch(ctx, vd, cfg, bins[cfg], "c16mock", n, threads=per, abort_fallback=True)
     with ThreadPoolExecutor(max_workers=len(SERDE_CONFIGS)) as ex:
         list(ex.map(one, SERDE_CONFIGS))
     # "never panics" includes the panics only a debug profile has (overflow checks, debug assertions): all serde features
     db = build(ctx, "dbg_serde_safe")
-    sim_batch(ctx, vd, "dbg_serde_safe", db, "c16", n // 4)
-    sim_batch(ctx, vd, "dbg_serde_safe", db, "c16mock", n // 4)
+    sim_batch(ctx, vd, "dbg_serde_safe", db, "c16", n // 4, abort_fallback=True)
+    sim_batch(ctx, vd, "dbg_serde_safe", db, "c16mock", n // 4, abort_fallback=True)
     vd.extra["components_real"] = ["fast-tlsh Serialize/Deserialize impls and visitors (features serde, +strict-parser, +serde-buffered)",
                                    "serde_json 1.0.138, ciborium 0.2.2, postcard 1.1.1 (real crates)", "fast-tlsh parsers from_str_bytes / TryFrom<&[u8]> (oracle side, same build)"]
     vd.extra["components_stub"] = ["writer and reader (short I/O, EINTR, hard errors)", "the storage medium (torn tail, bit flips, substitution, garbage, duplicated prefix)",
@@ -1212,7 +1226,8 @@ def check_C16(ctx, tier, seed):
 
 
 SETUP_CONFIGS = ["default", "hooked", "hooked_dbg", "shuttle"] + SERDE_CONFIGS + MATRIX_QUICK + ALLOC_CONFIGS + ["dbg", "dbg_unsafe", "rel_unsafe", "dbg_plain", "lowmem", "hooked_lowmem", "dbg_serde",
-                                                                                                               "dbg_embedded", "dbg_lowmem_simd", "dbg_bare", "dbg_sse41", "dbg_sse2", "rel_unsafe_lowmem", "dbg_serde_safe", "m_static_avx2"]
+                                                                                                               "dbg_embedded", "dbg_lowmem_simd", "dbg_bare", "dbg_sse41", "dbg_sse2", "rel_unsafe_lowmem", "dbg_serde_safe", "m_static_avx2", "dev0", "serde_noalloc", "alloc_sse41", "alloc_sse2",
+                                                                                                               "m_native", "m_v2_default"]
 
 CHECKS = {"C03": check_C03, "C07": check_C07, "C11": check_C11, "C12": check_C12, "C16": check_C16, "C17": check_C17, "C18": check_C18}
 
@@ -1262,7 +1277,7 @@ def replay(ctx, pid, path):
         return report(code == 1, (rep or {}).get("violation", {}).get("detail", "") if code == 1 else "schedule replayed cleanly")
     if engine == "build":
         p = subprocess.run(doc["argv"], env=cargo_env({"CARGO_TARGET_DIR": os.path.join(ctx.build_root, "nostd_lib", "target0")}),
-                           stdout=subprocess.PIPE, stderr=subprocess.STDOUT, text=True)
+                           stdout=subprocess.PIPE, stderr=subprocess.STDOUT, text=True, errors="replace")
         return report(p.returncode != 0, "build exit %d" % p.returncode)
     if engine in ("bigstream",):
         b = build(ctx, cfg if cfg in CONFIGS else "default")
